@@ -154,7 +154,7 @@ async def sk_flags_follow_messages_through_rename_inbox(hp, w, rnd, ctx):
     restart."""
     a = w.session()
     b2 = w.session()
-    sets = [["\\Seen"], ["\\Deleted"], ["\\Answered", "kw1"], [], ["\\Flagged", "\\Seen"], ["\\Deleted"], ["\\Draft"], ["$Forwarded", "\\Seen"], ["kw1"]]
+    sets = [["\\Seen", "\\Flagged", "\\Answered", "NonJunk"], ["\\Deleted"], ["\\Answered", "kw1"], [], ["\\Flagged", "\\Seen"], ["\\Deleted"], ["\\Draft"], ["$Forwarded", "\\Seen"], ["kw1"]]
     for fl in sets:
         await w.op_append(a, "INBOX", flags=fl)
     await w.op_select(a, "INBOX")
@@ -171,7 +171,11 @@ async def sk_flags_follow_messages_through_rename_inbox(hp, w, rnd, ctx):
         await w.op_search_flag(a, key)
     await w.op_append(b2, "saved")
     await w.op_append(b2, "saved", flags=["\\Flagged"])
-    await w.op_append(b2, "INBOX")
+    # what arrives in the emptied INBOX takes the message numbers the moved messages had: it has its own flags only
+    for fl in (None, [], ["\\Seen"], None, ["kw1"]):
+        await w.op_append(b2, "INBOX", flags=fl)
+    w.deliver("INBOX", 2, unseen=[True, False])
+    await w.rig.advance(6)
     await w.op_noop(a)
     await w.observe()
     w.check_disk("saved")
